@@ -16,8 +16,8 @@ for f in [raw] + sys.argv[2:]:
         if m:
             rows[os.path.basename(m.group(1).rstrip("/"))] = l if l.endswith("\n") else l + "\n"
 def key(k):
-    m = re.match(r"(C\d+)-(r2)?m(\d+)", k)
-    return (m.group(1), 1 if m.group(2) else 0, int(m.group(3)))
+    m = re.match(r"(C\d+)-(r\d)?m(\d+)", k)
+    return (m.group(1), int(m.group(2)[1:]) if m.group(2) else 0, int(m.group(3)))
 out = "".join(rows[k] for k in sorted(rows, key=key))
 open(raw, "w").write(out)
 os.makedirs("/var/tmp/rsverif", exist_ok=True)
